@@ -28,4 +28,10 @@ CLAIMS = {
         note="Files-versus-model bookkeeping only (converter tracking gaps are C01's business); the model is read through the exported accessors of haproxy.Config; parsing by harness/hapcfg.",
         technique="stateful property-based testing (rapid): invariant files == model after every step",
     ),
+    "C03": dict(
+        text="Generated cluster states are synced by the real controller; the written frontends, maps and backend sections are interpreted for every request of a derived alphabet and compared with an independent reference of the documented routing rules (host, then path precedence, first-created owner, HTTPS only with a tls entry, default host, default backend, 404) and of the Service/Endpoints resolution (ready servers, weight-0 draining servers only with drain-support).",
+        design_ref="DESIGN.md section 3, C03; section 2.5 evaluator; 2.6 reference model",
+        note="Trusts harness/hapcfg's evaluator (HAProxy semantics listed in the evidence assumptions) and the reference model written from the docs; requests with no documented winner accept either rule; terminating pods are covered by C11/C02 generators only.",
+        technique="property-based testing (rapid): differential against a reference model of the documented routing, through an evaluator of the written configuration",
+    ),
 }
